@@ -499,6 +499,24 @@ func main() {
 	defer run.Finish()
 	run.Rule("schedule = (family trip / trip2 / timeout / probe-ok / probe-fail / reopen / probe-blocked (the probe is blocked by a later slot while a straggler completes), retry timeout, probe number, 2-3 workers performing Entry, Entry+Exit(ok/err), completion of a pre-existing entry, clock ticks of 1ms, 1/2, 1-, 1, 1.5 retry timeouts; choice sequence at every atomic access of circuit_breaker.go) under random walk, PCT d<=3 and bounded DFS. Oracle on the recorded total order: state changes only by legal CAS, listener multiset == performed transitions (same caller, same previous state, program order), Open->HalfOpen never earlier than open instant + retry timeout, every admission justified by the state the caller read (Closed, own Open->HalfOpen CAS, or HalfOpen with a probe number), no rejection after reading Closed; distinct = distinct (scenario, interleaving).")
 	run.Assume("one breaker per resource in this engine (several breakers per resource are covered sequentially by C03)", "Go atomics sequentially consistent; int32 atomics in circuit_breaker.go are the state word")
+	{ // observability calibration: the breaker's state word must be visible through the atomic shim
+		loads := 0
+		vatomic.After = func(op string, addr unsafe.Pointer, v int64, ok bool) {
+			if op == "LoadInt32" {
+				loads++
+			}
+		}
+		cb.LoadRulesOfResource("c12-calib", []*cb.Rule{{Id: "c12-calib", Resource: "c12-calib", Strategy: cb.ErrorCount, RetryTimeoutMs: 10, MinRequestAmount: 1, StatIntervalMs: 1000, Threshold: 1}})
+		if e, b := sentinel.Entry("c12-calib"); b == nil {
+			e.Exit()
+		}
+		cb.ClearRulesOfResource("c12-calib")
+		vatomic.After = nil
+		if loads == 0 {
+			run.Inconclusive("observability: a request through a breaker executed no shimmed load of the state word (was the state machine moved out of core/circuitbreaker/circuit_breaker.go?) - the trace oracle has nothing to judge")
+			return
+		}
+	}
 	n := run.N(40000, 3000000)
 	for i := 0; i < n; i++ {
 		if run.Skip(i) {
